@@ -185,10 +185,10 @@ class Program:
 
     def impl_header(self, f):
         """Text of the `impl ... {` line the dump refers to ('<impl at path:line:col: ...>')."""
-        m = re.search(r"<impl at ([^:>]+):(\d+):(\d+)", f.name)
+        m = re.search(r"<impl at ([^:>]+):(\d+):(\d+): (\d+):(\d+)", f.name)
         if not m or not self.source_root:
             return ""
-        key = (m.group(1), int(m.group(2)))
+        key = (m.group(1), int(m.group(2)), int(m.group(3)))
         if key in self._impl_header_cache:
             return self._impl_header_cache[key]
         import os
@@ -198,9 +198,21 @@ class Program:
             if os.path.exists(p):
                 try:
                     lines = open(p).read().split("\n")
-                    txt = " ".join(lines[key[1] - 1:key[1] + 4])
-                    if "{" in txt:
-                        txt = txt[:txt.index("{") + 1]
+                    first = lines[key[1] - 1]
+                    if re.match(r"^\s*(pub(\([a-z]+\))? )?(unsafe )?impl\b", first):
+                        txt = " ".join(lines[key[1] - 1:key[1] + 4])
+                        if "{" in txt:
+                            txt = txt[:txt.index("{") + 1]
+                    else:
+                        # derive-generated impl: the span is the trait token inside #[derive(...)]; the type follows
+                        token = first[int(m.group(3)) - 1:int(m.group(5)) - 1] if m.group(2) == m.group(4) else first.strip()
+                        nm = ""
+                        for l2 in lines[key[1] - 1:key[1] + 12]:
+                            mm = re.search(r"\b(struct|enum|union)\s+([A-Za-z_][A-Za-z0-9_]*)", l2)
+                            if mm:
+                                nm = mm.group(2)
+                                break
+                        txt = "impl %s for %s {" % (token, nm) if nm else first
                 except OSError:
                     pass
                 break
